@@ -83,12 +83,12 @@ def fixpoints():
     from nmea2000.encoder import NMEA2000Encoder
     from . import msgs
     rng = random.Random(20240917)
-    dec = NMEA2000Decoder()
     enc = NMEA2000Encoder()
     out = []
     for d in DEFS:
         if "fast" not in d:
             continue
+        dec = NMEA2000Decoder()         # fresh per definition: no address-claim state leaks into other messages
         got = 0
         for attempt in range(12):
             if got >= 3:
@@ -113,8 +113,9 @@ def fixpoints():
                 pl3 = act_payload(enc.encode_actisense(m3))
             except Exception:
                 continue
-            if m2 is None or msgs.key(m2) != msgs.key(m) or pl3 != pl2:
-                continue
+            if m2 is None or msgs.key(m2, iso=False) != msgs.key(m, iso=False) or pl3 != pl2 or len(pl2) == 0:
+                continue            # (a definition whose encoder emits an empty payload cannot ride on any frame format)
+            m2.source_iso_name = None
             # the canonical form is what the encoder emits
             try:
                 js2 = m2.to_json()
